@@ -474,7 +474,7 @@ def replay(case):
 # ---------------------------------------------------------------------------
 def system_cases(tier):
     if tier == "quick":
-        dom = {"section": ["system"], "route": ["ham_sbi", "sd"], "n": [2, 3],
+        dom = {"section": ["system"], "route": ["ham_sbi", "sd", "aggregate"], "n": [2, 3],
                "Jpat": ["chain"], "bathpat": ["same", "graded"],
                "J": [0.0, 30.0, 100.0, -80.0], "gap": [0.0, 100.0, 300.0],
                "lam": [10.0, 40.0], "tau": [50.0, 100.0], "T": [300.0, 77.0],
@@ -494,8 +494,8 @@ def system_cases(tier):
         if c["J"] == 0.0 and (c["Jpat"] != "chain" or c["bathpat"] != "same"
                               or c["route"] != "ham_sbi"):
             return False                       # uncoupled: one representative per size
-        if tier == "quick" and c["route"] == "sd" and c["n"] == 3:
-            return False
+        if tier == "quick" and c["route"] != "ham_sbi" and c["n"] == 3:
+            return False                       # quick: 3 sites on the plain route only
         return admissible(c)
     return product(dom, ok)
 
